@@ -107,6 +107,7 @@ class PoolWorld:
         self.closed_pools = set()
         self.closing = set()  # pools on which gather_and_close() has been called
         self.flushes_begun = collections.Counter()
+        self.resized = set()  # pools whose size was re-assigned during the scenario
         self.cancelled_ops = set()  # (actor, pc) of coroutine ops whose caller was cancelled by the harness
         self.slow_ids = scen.get("slow_ids")
         self.inline = scen.get("inline") or {}
@@ -412,7 +413,7 @@ class PoolWorld:
             len(self.viol), len(self.dup_keys), len(self.bad_names),
             sorted(self.start_order.items()),
             sorted(self.cancel_targets),
-            sorted(self.closed_pools), sorted(self.closing), sorted(self.flushes_begun.items()), sorted(self.cancelled_ops),
+            sorted(self.closed_pools), sorted(self.closing), sorted(self.flushes_begun.items()), sorted(self.cancelled_ops), sorted(self.resized),
             [m.__canon__() for m in self.monitors],
         )
 
@@ -669,6 +670,7 @@ class PoolWorld:
                 v = size_of(pos[0]) if pos[0] != -1 else -1
                 pool.pool_size = v
                 self.cfg_size[p] = v
+                self.resized.add(p)
                 return ("ok",)
             if name == "noop":
                 return ("ok",)
